@@ -444,9 +444,27 @@ def key_insertion(s, key):
     return utf8_encoded(cur(), key)[0]
 
 
+class KeypressShape(EditShape):
+    """`self` of Edit.keypress: an Edit (str or bytes) — or one of the subclasses that call it through super() with their
+    own valid_char filter (IntEdit, NumEdit; str only): the body is verified once per variant, so the contract may be
+    used at those call sites."""
+
+    def fresh(self, st, hint):
+        from urwid import numedit
+
+        variants = ((_edit.Edit, "str"), (_edit.Edit, "bytes"), (_edit.IntEdit, "str"), (numedit.NumEdit, "str"))
+        cls, kind = variants[st.fork(len(variants))]
+        fields = dict(self.fields)
+        if cls is numedit.NumEdit:
+            fields.update(_allowed=Opaque("Allowed"), _trim_leading_zeros=Bool, _allow_negative=Bool)
+        o = SObj(cls, {k: (Text(kind) if isinstance(shp, TextShape) else shp).fresh(st, f"{hint}.{k}") for k, shp in fields.items()})
+        o.shape = EditShape(cls, {k: v for k, v in fields.items() if k not in self.fields})
+        return o
+
+
 @contract(ED + "Edit.keypress", property="C10")
 class edit_keypress(_EditBase):
-    self_shape = EDIT
+    self_shape = KeypressShape(_edit.Edit)
     invariant = staticmethod(RI)
     globals_ = ENC
     replayable = False
